@@ -45,6 +45,11 @@ pub struct HistoryCase {
     pub to_session: PipeParams,
     /// batch: how many frames are written back-to-back before the peer lets the session run
     pub batch: u8,
+    /// client role: frames that cannot belong to the stream about to be opened (ids at or below the
+    /// highest id opened so far, or 0xFFFFFFFF) stay in flight while open_stream runs, and the
+    /// session's tasks are pre-empted at the H1 points as these yield counts say
+    #[serde(default)]
+    pub inflight_yields: Option<Vec<u8>>,
 }
 
 pub struct HistoryFam;
@@ -103,16 +108,20 @@ impl Family for HistoryFam {
             1 => (id.clone(), any::<bool>()).prop_map(|(i, e)| HOp::SynAck(i, e)),
             1 => id.prop_map(HOp::StraySyn),
         ];
-        (any::<bool>(), proptest::collection::vec(op, 1..40), c01::pipe_params(), 1u8..12)
-            .prop_map(|(server_role, ops, to_session, batch)| HistoryCase { server_role, ops, to_session, batch })
+        let infl = proptest::option::weighted(0.4, proptest::collection::vec(prop_oneof![2 => Just(0u8), 2 => Just(1u8), 1 => Just(2u8), 1 => Just(5u8)], 1..40));
+        (any::<bool>(), proptest::collection::vec(op, 1..40), c01::pipe_params(), 1u8..12, infl)
+            .prop_map(|(server_role, ops, to_session, batch, inflight_yields)| HistoryCase { server_role, ops, to_session, batch, inflight_yields })
             .boxed()
     }
     fn run(&self, case: &HistoryCase, _cx: &CaseCtx) -> CaseResult {
         let mut out = Outcome::new();
         let case2 = case.clone();
         let total: usize = case.ops.iter().map(|o| if let HOp::Psh(_, n) = o { *n + 7 } else { 7 }).sum();
-        let res: Result<(usize, usize, usize), Fail> = run_virtual(async move {
+        let res: Result<(usize, usize, usize, usize), Fail> = run_virtual(async move {
             let case = case2;
+            if let Some(y) = &case.inflight_yields {
+                install_schedule(y.clone());
+            }
             let p = c01::bound_work(&case.to_session, total);
             let (c2s, s2c) = if case.server_role { (p, PipeParams::default()) } else { (PipeParams::default(), p) };
             let mut l = link(c2s, s2c);
@@ -124,6 +133,8 @@ impl Family for HistoryFam {
             let mut max_open = 0usize;
             let mut strays = 0usize;
             let mut opened_ids: Vec<u32> = Vec::new();
+            let mut inflight_opens = 0usize;
+            let mut unsettled: Vec<u32> = Vec::new();
 
             let mut peer;
             let mut server_rx = None;
@@ -166,11 +177,21 @@ impl Family for HistoryFam {
                             // "before the stream was opened" must mean "processed before": let the
                             // session consume everything already sent, otherwise a frame still in
                             // flight legitimately belongs to the stream that is about to get its id
+                            let top = opened_ids.iter().copied().max();
+                            // everything sent since the session was last left to consume its input
+                            unsettled.extend(pending.iter().map(|f| f.sid));
+                            let cannot_be_next = unsettled.iter().all(|sid| *sid == 0xFFFF_FFFF || top.is_some_and(|t| *sid <= t));
+                            let in_flight = case.inflight_yields.is_some() && cannot_be_next && !pending.is_empty();
                             if !pending.is_empty() {
                                 peer.send(&pending).await.ok();
                                 pending.clear();
                             }
-                            settle(Duration::from_millis(5)).await;
+                            if in_flight {
+                                inflight_opens += 1;
+                            } else {
+                                settle(Duration::from_millis(5)).await;
+                                unsettled.clear();
+                            }
                             let c = client.as_ref().unwrap();
                             let (st, _rx) = match within(WATCHDOG, c.open_stream()).await {
                                 Some(Ok(x)) => x,
@@ -230,6 +251,7 @@ impl Family for HistoryFam {
                 if flush_now || in_batch >= case.batch {
                     in_batch = 0;
                     if !pending.is_empty() {
+                        unsettled.extend(pending.iter().map(|f| f.sid));
                         if peer.send(&pending).await.is_err() {
                             return Err(Fail::plain("C02.stray", "the session under test stopped reading (transport closed) during the history"));
                         }
@@ -289,9 +311,10 @@ impl Family for HistoryFam {
                     ensure!(!s.eof, "C02.fin", "{tag}: reader reached end-of-stream although no FIN was sent for it");
                 }
             }
-            Ok((max_open, strays, insts.len()))
+            Ok((max_open, strays, insts.len(), inflight_opens))
         });
-        let (max_open, strays, n_inst) = res?;
+        let (max_open, strays, n_inst, inflight_opens) = res?;
+        out.class_if(inflight_opens > 0, "open-with-foreign-frames-in-flight");
         out.nt(max_open >= 2 && strays >= 1);
         out.class_if(max_open >= 2, "open>=2");
         out.class_if(strays >= 1, "stray-frames");
@@ -324,7 +347,7 @@ impl Family for ConcFam {
             proptest::collection::vec(0u8..3, 0..40),
             any::<u64>(),
         )
-            .prop_map(|(streams, c2s, s2c, yields, draw_seed)| c01::PipeCase { scheme: c01::SchemeSel::Default, streams, c2s, s2c, yields, draw_seed, end_by_close: false, late_readers: false })
+            .prop_map(|(streams, c2s, s2c, yields, draw_seed)| c01::PipeCase { scheme: c01::SchemeSel::Default, streams, c2s, s2c, yields, draw_seed, end_by_close: false, late_readers: false, stall: None })
             .boxed()
     }
     fn run(&self, case: &c01::PipeCase, _cx: &CaseCtx) -> CaseResult {
